@@ -36,6 +36,52 @@ BITS_IDX = ("                    for s_index in 0..6 {\n"
             "                        }\n"
             "                    }\n")
 
+SKIP = ("                    // find shift needed to get to the correct offset\n"
+        "                    let shift = column - offset;\n"
+        "                    if shift > 0 {\n"
+        "                        // determine whether it is more efficient to send repeats\n"
+        "                        // or just blank sixel `?` multiple times\n"
+        "                        if shift > 3 {\n"
+        "                            write!(sixel_image, \"!{}?\", shift)?;\n"
+        "                        } else {\n"
+        "                            for _ in 0..shift {\n"
+        "                                sixel_image.write_all(b\"?\")?;\n"
+        "                            }\n"
+        "                        }\n"
+        "                    }\n")
+WRITE_RUN = ("                    // write sixel\n"
+             "                    if repeats > 3 {\n"
+             "                        write!(sixel_image, \"!{}\", repeats)?;\n"
+             "                        sixel_image.write_all(&[*code])?;\n"
+             "                    } else {\n"
+             "                        for _ in 0..repeats {\n"
+             "                            sixel_image.write_all(&[*code])?;\n"
+             "                        }\n"
+             "                    }\n")
+PEEK_LOOP = ("                    while let Some((column_next, code_next)) = codes.peek() {\n"
+             "                        if *column_next != column + repeats || code_next != code {\n"
+             "                            break;\n"
+             "                        }\n"
+             "                        repeats += 1;\n"
+             "                        codes.next();\n"
+             "                    }\n")
+
+PALETTE_LOOP = ("        for (index, color) in palette.colors().iter().enumerate() {\n"
+                "            let [red, green, blue] = color.to_rgb();\n"
+                "            let red = (red as f32 / 2.55).round() as u8;\n"
+                "            let green = (green as f32 / 2.55).round() as u8;\n"
+                "            let blue = (blue as f32 / 2.55).round() as u8;\n"
+                "            // 2 - means RGB, 1 - means HLS\n"
+                "            " + REG + "\n"
+                "        }\n")
+
+EVICT = ("        while self.size > IMAGE_CACHE_SIZE {\n"
+         "            let Some((_, lru_image)) = self.imgs.pop_lru() else {\n"
+         "                break;\n"
+         "            };\n"
+         "            self.size -= lru_image.len();\n"
+         "        }\n")
+
 MUTANTS = [
     # ---------------- FRAMING ----------------
     {"id": "C12-missing-st", "prop": "C12", "expect": "FRAMING/",
@@ -206,4 +252,177 @@ MUTANTS = [
     {"id": "C12-benign-push-and-extend", "prop": "C12", "benign": True,
      "edits": [(I, '                sixel_image.write_all(b"$")?;\n', "                sixel_image.push(b'$');\n"),
                (I, '            sixel_image.write_all(b"-")?;\n', '            sixel_image.extend_from_slice(b"-");\n')]},
+
+    # ---------------- benign: refactorings of seeded/benign/C12-* and of the same kind ----------------
+    # helper extraction (C12-A): the run writer becomes a private fn taking the buffer by `&mut`
+    {"id": "C12-benign-helper-write-run", "prop": "C12", "benign": True,
+     "edits": [(I, "impl ImageHandler for SixelImageHandler {\n",
+                "fn sixel_write_run(out: &mut Vec<u8>, code: u8, count: usize) -> Result<(), Error> {\n"
+                "    if count > 3 {\n        write!(out, \"!{}\", count)?;\n        out.write_all(&[code])?;\n    } else {\n"
+                "        for _ in 0..count {\n            out.write_all(&[code])?;\n        }\n    }\n    Ok(())\n}\n\n"
+                "impl ImageHandler for SixelImageHandler {\n"),
+               (I, SKIP, "                    sixel_write_run(&mut sixel_image, b'?', column - offset)?;\n"),
+               (I, WRITE_RUN, "                    sixel_write_run(&mut sixel_image, *code, repeats)?;\n")]},
+    # helper extraction: header and palette writers
+    {"id": "C12-benign-helper-header-palette", "prop": "C12", "benign": True,
+     "edits": [(I, "impl ImageHandler for SixelImageHandler {\n",
+                "fn sixel_header(out: &mut Vec<u8>, width: usize, height: usize) -> Result<(), Error> {\n"
+                "    out.write_all(b\"\\x1bPq\")?;\n    write!(out, \"\\\"1;1;{};{}\", width, height)?;\n    Ok(())\n}\n\n"
+                "fn sixel_palette(out: &mut Vec<u8>, palette: &ColorPalette) -> Result<(), Error> {\n"
+                "    for (index, color) in palette.colors().iter().enumerate() {\n"
+                "        let [red, green, blue] = color.to_rgb();\n"
+                "        let red = (red as f32 / 2.55).round() as u8;\n"
+                "        let green = (green as f32 / 2.55).round() as u8;\n"
+                "        let blue = (blue as f32 / 2.55).round() as u8;\n"
+                "        write!(out, \"#{};2;{};{};{}\", index, red, green, blue)?;\n    }\n    Ok(())\n}\n\n"
+                "impl ImageHandler for SixelImageHandler {\n"),
+               (I, "        " + 'sixel_image.write_all(b"\\x1bPq")?;' + "\n        " + RASTER + "\n",
+                "        sixel_header(&mut sixel_image, qimg.width(), qimg.height())?;\n"),
+               (I, PALETTE_LOOP, "        sixel_palette(&mut sixel_image, &palette)?;\n")]},
+    # helper extraction: the sixel character of one colour in one column
+    {"id": "C12-benign-helper-sixel-code", "prop": "C12", "benign": True,
+     "edits": [(I, "impl ImageHandler for SixelImageHandler {\n",
+                "fn sixel_code_of(sixel: &[usize; 6], color: usize) -> u8 {\n    let mut sixel_code = 0;\n"
+                "    for (s_index, s_color) in sixel.iter().enumerate() {\n        if *s_color == color {\n            sixel_code |= 1 << s_index;\n        }\n    }\n"
+                "    sixel_code\n}\n\nimpl ImageHandler for SixelImageHandler {\n"),
+               (I, "                    let mut sixel_code = 0;\n" + BITS, "                    let sixel_code = sixel_code_of(&sixel, *color);\n")]},
+    # loop -> iterator chain (C12-B): bits by filter + fold, run length by next_if
+    {"id": "C12-benign-bits-fold", "prop": "C12", "benign": True,
+     "edits": [(I, "                    let mut sixel_code = 0;\n" + BITS,
+                "                    let sixel_code = sixel\n                        .iter()\n                        .enumerate()\n"
+                "                        .filter(|(_, s_color)| *s_color == color)\n"
+                "                        .fold(0u8, |code, (s_index, _)| code | (1 << s_index));\n")]},
+    {"id": "C12-benign-bits-fold-range", "prop": "C12", "benign": True,
+     "edits": [(I, "                    let mut sixel_code = 0;\n" + BITS,
+                "                    let sixel_code = (0..6).filter(|&i| sixel[i] == *color).fold(0u8, |code, i| code | (1 << i));\n")]},
+    {"id": "C12-benign-repeats-next-if", "prop": "C12", "benign": True,
+     "edits": [(I, PEEK_LOOP,
+                "                    while codes\n                        .next_if(|(column_next, code_next)| {\n"
+                "                            *column_next == column + repeats && code_next == code\n                        })\n"
+                "                        .is_some()\n                    {\n                        repeats += 1;\n                    }\n")]},
+    # flipped comparisons / negated guard
+    {"id": "C12-benign-flipped-comparisons", "prop": "C12", "benign": True,
+     "edits": [(I, "if s_color == color {", "if color == s_color {"),
+               (I, "if *column_next != column + repeats || code_next != code {", "if code != code_next || column + repeats != *column_next {"),
+               (I, "if shift > 3 {", "if 3 < shift {")]},
+    {"id": "C12-benign-bits-continue", "prop": "C12", "benign": True,
+     "edits": [(I, BITS, "                    for (s_index, s_color) in sixel.iter().enumerate() {\n"
+                         "                        if s_color != color {\n                            continue;\n                        }\n"
+                         "                        sixel_code |= 1 << s_index;\n                    }\n")]},
+    # `for x in &collection` instead of `collection.iter()`
+    {"id": "C12-benign-for-in-ref", "prop": "C12", "benign": True,
+     "edits": [(I, "for (color, sixel_line) in sixel_lines.iter() {", "for (color, sixel_line) in &sixel_lines {"),
+               (I, "for color in unique_colors.iter() {", "for color in &unique_colors {")]},
+    # independent statements reordered: offset is not read again in the same iteration
+    {"id": "C12-benign-offset-update-before-write", "prop": "C12", "benign": True,
+     "edits": [(I, "                    // write sixel\n", "                    offset = column + repeats;\n                    // write sixel\n"),
+               (I, "                    }\n                    offset = column + repeats;\n                }\n", "                    }\n                }\n")]},
+    # loop -> iterator: the blank fill as extend(repeat().take())
+    {"id": "C12-benign-blank-fill-extend", "prop": "C12", "benign": True,
+     "edits": [(I, "                            for _ in 0..shift {\n                                sixel_image.write_all(b\"?\")?;\n                            }\n",
+                "                            sixel_image.extend(std::iter::repeat(b'?').take(shift));\n")]},
+    # named constant, hoisted dimensions, slice emission
+    {"id": "C12-benign-named-const-hoisted-dims", "prop": "C12", "benign": True,
+     "edits": [(I, "const IMAGE_CACHE_SIZE: usize = 134217728; // 128MB\n", "const IMAGE_CACHE_SIZE: usize = 134217728; // 128MB\nconst SIXEL_ROWS: usize = 6;\nconst SIXEL_BASE: u8 = b'?';\n"),
+               (I, "(0..qimg.height()).step_by(6)", "(0..rows).step_by(SIXEL_ROWS)"),
+               (I, "let mut sixel = [0usize; 6];", "let mut sixel = [0usize; SIXEL_ROWS];"),
+               (I, ".push((col, sixel_code + 63));", ".push((col, sixel_code + SIXEL_BASE));"),
+               (I, RASTER, "let (columns, rows) = (qimg.width(), qimg.height());\n        write!(sixel_image, \"\\\"1;1;{};{}\", columns, rows)?;"),
+               (I, "for col in 0..img.width() {", "for col in 0..columns {")]},
+    {"id": "C12-benign-emit-full-slice", "prop": "C12", "benign": True,
+     "edits": [(I, "        out.write_all(sixel_image.as_slice())?;\n\n        self.size", "        out.write_all(&sixel_image[..])?;\n\n        self.size"),
+               (I, "            out.write_all(sixel_image.as_slice())?;\n            return Ok(());", "            out.write_all(sixel_image)?;\n            return Ok(());")]},
+    # breaking counterparts of the new shapes
+    {"id": "C12-helper-run-two-bytes", "prop": "C12", "expect": "RLE/",
+     "edits": [(I, "impl ImageHandler for SixelImageHandler {\n",
+                "fn sixel_write_run(out: &mut Vec<u8>, code: u8, count: usize) -> Result<(), Error> {\n"
+                "    if count > 3 {\n        write!(out, \"!{}\", count)?;\n        out.write_all(&[code, code])?;\n    } else {\n"
+                "        for _ in 0..count {\n            out.write_all(&[code])?;\n        }\n    }\n    Ok(())\n}\n\n"
+                "impl ImageHandler for SixelImageHandler {\n"),
+               (I, SKIP, "                    sixel_write_run(&mut sixel_image, b'?', column - offset)?;\n"),
+               (I, WRITE_RUN, "                    sixel_write_run(&mut sixel_image, *code, repeats)?;\n")]},
+    {"id": "C12-helper-run-error-swallowed", "prop": "C12", "expect": "/",
+     "edits": [(I, "impl ImageHandler for SixelImageHandler {\n",
+                "fn sixel_write_run(out: &mut Vec<u8>, code: u8, count: usize) -> Result<(), Error> {\n"
+                "    if count > 3 {\n        write!(out, \"!{}\", count)?;\n        out.write_all(&[code])?;\n    } else {\n"
+                "        for _ in 0..count {\n            out.write_all(&[code])?;\n        }\n    }\n    Ok(())\n}\n\n"
+                "impl ImageHandler for SixelImageHandler {\n"),
+               (I, SKIP, "                    sixel_write_run(&mut sixel_image, b'?', column - offset)?;\n"),
+               (I, WRITE_RUN, "                    sixel_write_run(&mut sixel_image, *code, repeats + 1)?;\n")]},
+    {"id": "C12-fold-bits-of-other-colours", "prop": "C12", "expect": "bit-provenance",
+     "edits": [(I, "                    let mut sixel_code = 0;\n" + BITS,
+                "                    let sixel_code = sixel\n                        .iter()\n                        .enumerate()\n"
+                "                        .filter(|(_, s_color)| *s_color != color)\n"
+                "                        .fold(0u8, |code, (s_index, _)| code | (1 << s_index));\n")]},
+    {"id": "C12-fold-bit-order-reversed", "prop": "C12", "expect": "bit-provenance",
+     "edits": [(I, "                    let mut sixel_code = 0;\n" + BITS,
+                "                    let sixel_code = sixel\n                        .iter()\n                        .enumerate()\n"
+                "                        .filter(|(_, s_color)| *s_color == color)\n"
+                "                        .fold(0u8, |code, (s_index, _)| code | (1 << (5 - s_index)));\n")]},
+    {"id": "C12-fold-index-after-filter", "prop": "C12", "expect": "bit-provenance",
+     "edits": [(I, "                    let mut sixel_code = 0;\n" + BITS,
+                "                    let sixel_code = sixel\n                        .iter()\n                        .filter(|s_color| *s_color == color)\n"
+                "                        .enumerate()\n                        .fold(0u8, |code, (s_index, _)| code | (1 << s_index));\n")]},
+    {"id": "C12-fold-starts-at-64", "prop": "C12", "expect": "/",
+     "edits": [(I, "                    let mut sixel_code = 0;\n" + BITS,
+                "                    let sixel_code = sixel\n                        .iter()\n                        .enumerate()\n"
+                "                        .filter(|(_, s_color)| *s_color == color)\n"
+                "                        .fold(64u8, |code, (s_index, _)| code | (1 << s_index));\n")]},
+    {"id": "C12-next-if-ignores-code", "prop": "C12", "expect": "repeat-counter",
+     "edits": [(I, PEEK_LOOP,
+                "                    while codes\n                        .next_if(|(column_next, _)| *column_next == column + repeats)\n"
+                "                        .is_some()\n                    {\n                        repeats += 1;\n                    }\n")]},
+    {"id": "C12-next-if-counts-misses", "prop": "C12", "expect": "repeat-counter",
+     "edits": [(I, PEEK_LOOP,
+                "                    while codes\n                        .next_if(|(column_next, code_next)| {\n"
+                "                            *column_next == column + repeats && code_next == code\n                        })\n"
+                "                        .is_none()\n                    {\n                        repeats += 1;\n                        if repeats > 2 {\n                            break;\n                        }\n                    }\n")]},
+    {"id": "C12-blank-fill-extend-column", "prop": "C12", "expect": "RLE/",
+     "edits": [(I, "                            for _ in 0..shift {\n                                sixel_image.write_all(b\"?\")?;\n                            }\n",
+                "                            sixel_image.extend(std::iter::repeat(b'?').take(*column));\n")]},
+
+    # helper extraction: eviction loop / the whole "remember" step as private methods of the handler
+    {"id": "C12-benign-helper-evict", "prop": "C12", "benign": True,
+     "edits": [(I, "impl ImageHandler for SixelImageHandler {\n",
+                "impl SixelImageHandler {\n    fn evict(&mut self) {\n" + EVICT.replace("        ", "    ", 0) + "    }\n}\n\nimpl ImageHandler for SixelImageHandler {\n"),
+               (I, "        self.imgs.put(img.hash(), sixel_image);\n" + EVICT, "        self.imgs.put(img.hash(), sixel_image);\n        self.evict();\n")]},
+    {"id": "C12-benign-helper-remember", "prop": "C12", "benign": True,
+     "edits": [(I, "impl ImageHandler for SixelImageHandler {\n",
+                "impl SixelImageHandler {\n    fn remember(&mut self, key: u64, sixel_image: Vec<u8>) {\n        self.size += sixel_image.len();\n        self.imgs.put(key, sixel_image);\n"
+                + EVICT + "    }\n}\n\nimpl ImageHandler for SixelImageHandler {\n"),
+               (I, "        self.size += sixel_image.len();\n        self.imgs.put(img.hash(), sixel_image);\n" + EVICT, "        self.remember(img.hash(), sixel_image);\n")]},
+    # iterator -> loop: the set of a column's colours filled by insert
+    {"id": "C12-benign-colours-insert-loop", "prop": "C12", "benign": True,
+     "edits": [(I, "                unique_colors.extend(sixel.iter().copied());\n", "                for s_color in sixel.iter() {\n                    unique_colors.insert(*s_color);\n                }\n")]},
+    {"id": "C12-colours-insert-first-only", "prop": "C12", "expect": "colour-key",
+     "edits": [(I, "                unique_colors.extend(sixel.iter().copied());\n", "                unique_colors.insert(sixel[0]);\n")]},
+    # equivalent conversion
+    {"id": "C12-benign-channel-f32-from", "prop": "C12", "benign": True,
+     "edits": [(I, "            let red = (red as f32 / 2.55).round() as u8;\n", "            let red = (f32::from(red) / 2.55).round() as u8;\n"),
+               (I, "            let [red, green, blue] = color.to_rgb();\n", "            let rgb = color.to_rgb();\n            let (red, green, blue) = (rgb[0], rgb[1], rgb[2]);\n")]},
+    {"id": "C12-helper-remember-size-not-accounted", "prop": "C12", "expect": "CACHE-ACCOUNT/",
+     "edits": [(I, "impl ImageHandler for SixelImageHandler {\n",
+                "impl SixelImageHandler {\n    fn remember(&mut self, key: u64, sixel_image: Vec<u8>) {\n        self.size += 1;\n        self.imgs.put(key, sixel_image);\n"
+                + EVICT + "    }\n}\n\nimpl ImageHandler for SixelImageHandler {\n"),
+               (I, "        self.size += sixel_image.len();\n        self.imgs.put(img.hash(), sixel_image);\n" + EVICT, "        self.remember(img.hash(), sixel_image);\n")]},
+
+    # pre-sized buffer, reordered arms, generic helper
+    {"id": "C12-benign-reserve", "prop": "C12", "benign": True,
+     "edits": [(I, "        let mut sixel_image = Vec::new();\n", "        let mut sixel_image = Vec::with_capacity(1024);\n        sixel_image.reserve(palette.size().min(256) * 18);\n")]},
+    {"id": "C12-benign-reordered-arms", "prop": "C12", "benign": True,
+     "edits": [(I, QUANT, "        let (palette, qimg) = match dimg.quantize(256, true, self.bg) {\n            Some(qimg) => qimg,\n            None => return Ok(()),\n        };\n")]},
+    {"id": "C12-benign-helper-generic-writer", "prop": "C12", "benign": True,
+     "edits": [(I, "impl ImageHandler for SixelImageHandler {\n",
+                "fn sixel_write_run<W: Write>(out: &mut W, code: u8, count: usize) -> Result<(), Error> {\n"
+                "    if count > 3 {\n        write!(out, \"!{}\", count)?;\n        out.write_all(&[code])?;\n    } else {\n"
+                "        for _ in 0..count {\n            out.write_all(&[code])?;\n        }\n    }\n    Ok(())\n}\n\n"
+                "impl ImageHandler for SixelImageHandler {\n"),
+               (I, SKIP, "                    sixel_write_run(&mut sixel_image, b'?', column - offset)?;\n"),
+               (I, WRITE_RUN, "                    sixel_write_run(&mut sixel_image, *code, repeats)?;\n")]},
+
+    # struct literal instead of the constructor
+    {"id": "C12-benign-position-literal", "prop": "C12", "benign": True,
+     "edits": [(I, "qimg.get(Position::new(row + i, col))", "qimg.get(Position { row: row + i, col })")]},
+    {"id": "C12-position-literal-swapped", "prop": "C12", "expect": "sample-source",
+     "edits": [(I, "qimg.get(Position::new(row + i, col))", "qimg.get(Position { row: col, col: row + i })")]},
 ]
